@@ -13,7 +13,7 @@ VERIF = os.path.dirname(os.path.dirname(os.path.abspath(__file__)))
 M = [
     # (name, file, old, new, props)
     ("C01-swap-operands-sub", "calculator/ExpressionCalculator.go", "result, err := c.variantOperations.Sub(value1, value2)", "result, err := c.variantOperations.Sub(value2, value1)", "C01"),
-    ("C01-level4-once", "calculator/parsers/ExpressionParser.go", "\t\t\tc.addTokenToResult(token.Type(), variants.Empty, token.Line(), token.Column())\n\t\t\tcontinue\n\t\t}\n\t\tbreak\n\t}\n\n\treturn nil\n}\n\nfunc (c *ExpressionParser) performSyntaxAnalysisAtLevel5", "\t\t\tc.addTokenToResult(token.Type(), variants.Empty, token.Line(), token.Column())\n\t\t}\n\t\tbreak\n\t}\n\n\treturn nil\n}\n\nfunc (c *ExpressionParser) performSyntaxAnalysisAtLevel5", "C01,C02"),
+    ("C01-level4-once", "calculator/parsers/ExpressionParser.go", "\t\t\tc.addTokenToResult(token.Type(), variants.Empty, token.Line(), token.Column())\n\t\t\tcontinue\n\t\t}\n\t\tbreak\n\t}\n\n\treturn nil\n}\n\n// Performs a syntax analysis at level 5.", "\t\t\tc.addTokenToResult(token.Type(), variants.Empty, token.Line(), token.Column())\n\t\t}\n\t\tbreak\n\t}\n\n\treturn nil\n}\n\n// Performs a syntax analysis at level 5.", "C01,C02"),
     ("C01-reverse-params", "calculator/ExpressionCalculator.go", "parameters = append([]*variants.Variant{stack.Pop()}, parameters...)", "parameters = append(parameters, stack.Pop())", "C01,C08"),
     ("C02-no-leftover-check", "calculator/parsers/ExpressionParser.go", "\t\tif c.hasMoreTokens() {\n\t\t\ttoken := c.getCurrentToken()\n\t\t\terr = errors.NewSyntaxError(\"\", errors.ErrErrorNear", "\t\tif false && c.hasMoreTokens() {\n\t\t\ttoken := c.getCurrentToken()\n\t\t\terr = errors.NewSyntaxError(\"\", errors.ErrErrorNear", "C02,C01"),
     ("C03-pop-empty-stack", "calculator/ExpressionCalculator.go", "\tif stack.Length() != 1 {", "\tif stack.Length() > 1 {", "C03"),
@@ -77,7 +77,12 @@ def main():
         verdicts = " ".join("%s:%s" % (k, v["verdict"]) for k, v in r["checks"].items())
         rows.append((name, r["suite"], verdicts, ""))
         print("%-32s suite=%-5s %s" % (name, r["suite"], verdicts), flush=True)
-    json.dump(rows, open(os.path.join(VERIF, ".build", "author_mutants.json"), "w"), indent=1)
+    path = os.path.join(VERIF, ".build", "author_mutants.json")
+    if only and os.path.exists(path):
+        # a partial run replaces its own rows only
+        done = {r[0]: r for r in rows}
+        rows = [done.pop(r[0], r) for r in json.load(open(path))] + list(done.values())
+    json.dump(rows, open(path, "w"), indent=1)
 
 
 if __name__ == "__main__":
